@@ -2,6 +2,7 @@ package main
 
 import (
 	"bytes"
+	"context"
 	"fmt"
 	"strings"
 
@@ -92,7 +93,13 @@ func encodeChain(c encCfg, files []encFile) ([]byte, []string, error) {
 	var wb []string
 	for _, f := range files {
 		fit := &proto.FIT{FileHeader: proto.FileHeader{Size: f.hsize, ProtocolVersion: f.proto, ProfileVersion: f.profile}, Messages: cloneMessages(f.msgs)}
-		if err := enc.Encode(fit); err != nil {
+		var err error
+		if (len(files)+len(f.msgs))%2 == 1 { // the context variant has its own copy of the encode path (validation, data size, messages): same contract
+			err = enc.EncodeWithContext(context.Background(), fit)
+		} else {
+			err = enc.Encode(fit)
+		}
+		if err != nil {
 			return buf.Bytes(), wb, err
 		}
 		h := fit.FileHeader
